@@ -315,3 +315,119 @@ class WOFFEncodeData(Contract):
                 found += 1
                 if found >= 3:
                     return
+
+
+# -- directory and master checksum --------------------------------------------------------
+
+def spec_parse_directory(bs, n):
+    """Independent reading of an sfnt header + n directory entries (OpenType spec):
+    returns (header fields, [(tag bytes, checkSum, offset, length)])."""
+    def u16(k):
+        return bs[k] * 256 + bs[k + 1]
+
+    def u32(k):
+        return ((bs[k] * 256 + bs[k + 1]) * 256 + bs[k + 2]) * 256 + bs[k + 3]
+
+    hdr = dict(sfntVersion=bs[0:4], numTables=u16(4), searchRange=u16(6), entrySelector=u16(8), rangeShift=u16(10))
+    ents = []
+    for i in range(n):
+        o = 12 + 16 * i
+        ents.append((bs[o:o + 4], u32(o + 4), u32(o + 8), u32(o + 12)))
+    return hdr, ents
+
+
+class _CloseBase(Contract):
+    module = "fontTools.ttLib.sfnt"
+    props = ("C04",)
+    rebind = staticmethod(_writer_rebind)
+    level = "PF"
+    TAGS = ("zzzz", "head", "OS/2", "cmap")     # deliberately unsorted insertion order
+
+    def _writer(self, S, n, with_head=True):
+        mod = self.mod
+        f = SymFile()
+        w = mod.SFNTWriter(f, n, "\0\1\0\0")
+        f.writes = []
+        tags = [t for t in self.TAGS if with_head or t != "head"][:n]
+        ents = {}
+        for t in tags:
+            e = mod.SFNTDirectoryEntry()
+            e.tag = t
+            e.checkSum = S.int("cs_" + t, 0, 2 ** 32 - 1)
+            e.offset = S.int("off_" + t, 0, 2 ** 32 - 1)
+            e.length = S.int("len_" + t, 0, 2 ** 32 - 1)
+            w.tables[t] = e
+            ents[t] = e
+        return w, f, ents
+
+
+@contract
+class SFNTWriterClose(_CloseBase):
+    """close(): the directory written at offset 0 parses (independent reader) to the header
+    search fields of the spec and to the entries sorted by tag with their recorded
+    checkSum/offset/length; checkSumAdjustment written at head.offset + 8 makes the
+    whole-file sum 0xB1B0AFBA (table checksums + directory checksum)."""
+    qualname = "SFNTWriter.close"
+    variants = (0, 1, 2, 3, 4, "nohead-2", "wrong-count")
+    expect_exceptional_only = ("wrong-count",)
+
+    def args(self, S, variant):
+        if variant == "wrong-count":
+            w, f, ents = self._writer(S, 2)
+            w.numTables = 3
+        elif variant == "nohead-2":
+            w, f, ents = self._writer(S, 2, with_head=False)
+        else:
+            w, f, ents = self._writer(S, variant)
+        return dict(self=w, _file=f, _ents=ents)
+
+    def call(self, f, a):
+        return f(a.self)
+
+    from fontTools.ttLib import TTLibError as _E
+    raises = {_E: lambda a: len(a.self.tables) != a.self.numTables}
+
+    @staticmethod
+    def _dir_bytes(a):
+        # the last write at position 0 is the directory
+        ws = [b for p, b in a._file.writes if (p == 0 if isinstance(p, int) else bool(p == 0))]
+        d = ws[-1].materialize(12 + 16 * len(a._ents))
+        return list(d.items)
+
+    @staticmethod
+    def _dir_ok(a):
+        n = len(a._ents)
+        bs = SFNTWriterClose._dir_bytes(a)
+        hdr, ents = spec_parse_directory(bs, n)
+        e2 = 0
+        while (2 << e2) <= n:
+            e2 += 1
+        cs = [eq(hdr["numTables"], n)]
+        if n:
+            cs += [eq(hdr["searchRange"], (1 << e2) * 16), eq(hdr["entrySelector"], e2),
+                   eq(hdr["rangeShift"], n * 16 - (1 << e2) * 16)]
+        for (tagb, c, o, l), t in zip(ents, sorted(a._ents)):
+            e = a._ents[t]
+            cs += [eq(list(tagb), list(t.encode("latin-1"))), eq(c, e.checkSum), eq(o, e.offset), eq(l, e.length)]
+        return And(*cs)
+
+    @staticmethod
+    def _adjust_ok(a):
+        if "head" not in a._ents:
+            return all(not (isinstance(b, SymBytes) or True) or True for p, b in a._file.writes) and \
+                And(*[True])
+        head = a._ents["head"]
+        ws = [(p, b) for p, b in a._file.writes if bool(eq(p, head.offset + 8))]
+        if len(ws) != 1:
+            return False
+        adj = ws[0][1].materialize(4)
+        adj = ((adj.items[0] * 256 + adj.items[1]) * 256 + adj.items[2]) * 256 + adj.items[3]
+        total = spec_checksum(SFNTWriterClose._dir_bytes(a))
+        for e in a._ents.values():
+            total = total + e.checkSum
+        return eq((total + adj) % 2 ** 32, 0xB1B0AFBA)
+
+    ensures = [
+        prop("directory-sorted-with-OT-search-fields", lambda a, old, r: SFNTWriterClose._dir_ok(a)),
+        prop("checkSumAdjustment-makes-file-sum-B1B0AFBA", lambda a, old, r: SFNTWriterClose._adjust_ok(a)),
+    ]
